@@ -23,7 +23,7 @@ REQUIRED = {
     "loss_values_checked": 30, "gradients_checked": 30, "ppo_clip_cases": 3,
     "ppo_value_term_checks": 4, "temperature_steps": 3,
 }
-TIMEOUT = {"quick": 1500, "thorough": 3400}
+TIMEOUT = {"quick": 1500, "thorough": 7000}
 ASSUMPTIONS = ["references use the real modules' own log_probability / forward "
                "passes (their correctness is C13's subject)",
                "rtol 1e-4 / atol 1e-6 on float32 values and gradient leaves"]
@@ -34,7 +34,7 @@ KINDS = ["pg_reinforce", "pg_ac", "pg_a2c", "ppo", "dpg", "dpg_sale", "mrq_polic
 
 def gen_cases(tier, seed):
     rng = np.random.default_rng(seed + 1212)
-    k = 1 if tier == "quick" else 8
+    k = 1 if tier == "quick" else 24
     cases = []
     for kind in KINDS:
         for N in (2, 3, 8, 1):
